@@ -7,13 +7,13 @@ cd $W || exit 2
 git diff > /tmp/confirm-$ID$SFX.cur.diff
 [ -s /tmp/confirm-$ID$SFX.cur.diff ] || git apply $S/patch.diff || { echo "CANNOT APPLY"; exit 2; }
 timeout 1200 cmake --build $W/_build -j8 2>&1 | tail -2
-timeout 300 sh $S/run_demo.sh > /tmp/confirm-$ID$SFX.demo1 2>&1; D1=$?
+timeout 300 bash $S/run_demo.sh > /tmp/confirm-$ID$SFX.demo1 2>&1; D1=$?
 # the pinned suite = the configuration of /repo/_build (embedded + modular tests, glib): 36 ctest programs
 cmake -G Ninja -S $W -B $W/_build36 -DDBUS_BUILD_TESTS=ON -DDBUS_ENABLE_EMBEDDED_TESTS=ON -DDBUS_ENABLE_MODULAR_TESTS=ON -DDBUS_WITH_GLIB=ON -DCMAKE_BUILD_TYPE=RelWithDebInfo -DDBUS_ENABLE_VERBOSE_MODE=ON > /dev/null 2>&1
 timeout 1500 cmake --build $W/_build36 -j8 2>&1 | tail -1
 timeout 1500 ctest --test-dir $W/_build36 -j6 --timeout 900 2>&1 | tail -4 > /tmp/confirm-$ID$SFX.ctest; grep -q "100% tests passed, 0 tests failed out of 36" /tmp/confirm-$ID$SFX.ctest; T=$?
 git diff > /tmp/confirm-$ID$SFX.applied.diff; git apply -R /tmp/confirm-$ID$SFX.applied.diff; timeout 1200 cmake --build $W/_build -j8 2>&1 | tail -2
-timeout 300 sh $S/run_demo.sh > /tmp/confirm-$ID$SFX.demo0 2>&1; D0=$?
+timeout 300 bash $S/run_demo.sh > /tmp/confirm-$ID$SFX.demo0 2>&1; D0=$?
 git apply /tmp/confirm-$ID$SFX.applied.diff
 echo "RESULT id=$ID$SFX demo_with_patch_rc=$D1 ctest_with_patch_ok=$((1-T)) demo_without_patch_rc=$D0"
 if [ $D1 -ne 0 ] && [ $T -eq 0 ] && [ $D0 -eq 0 ]; then
